@@ -3,8 +3,10 @@
 Maintenance tool: run after the public API or the op tables changed; `tools/c15_inventory.py` then
 reports entries the rules do not know as `unmapped`.
 
-ops are written `Cxx:op`; `theorem` names the kernel-checked statement that excludes Panic / OutOfFuel of
-the modelled entry point for ALL well-typed arguments (`none: ...` = correspondence + judge only)."""
+ops are written `Cxx:op`; `theorem`: `C15_x` = the theorem of Props/C15.v that excludes Panic / OutOfFuel of the modelled entry
+point for ALL well-typed arguments (named *_partial when a stated sub-domain is excluded); `owner: Cxx_y` =
+the owner's theorem of Props/Cxx.v states `f args = Val ...` for all typed arguments (no trap follows at
+once) and Props/C15.v does not restate it; `none: ...` = correspondence + judge only, with the reason."""
 import json
 import os
 import re
@@ -22,49 +24,52 @@ RULES = [
     # ---- serde
     (r'serde::|Serialize|Deserialize', [], 'none: outside C15 stream', C20),
     # ---- DateTime
-    (r'^DateTime<Tz>::timestamp_nanos_opt$', ['C02:ts.of'], 'C15_timestamp_nanos_opt_total', ''),
-    (r'^DateTime<Tz>::checked_(add|sub)_signed$', ['C03:ar.zadd', 'C03:ar.zsub'], 'C15_dtz_checked_add_signed_total', ''),
-    (r'^DateTime<Tz>::checked_(add|sub)_months$', ['C04:z.months'], 'C15_dtz_months_total_partial', 'wall clock inside the range (C04_months_partial)'),
-    (r'^DateTime<Tz>::checked_(add|sub)_days$', ['C04:z.days', 'C03:ar.zdays'], 'C15_dtz_days_total_partial', 'wall clock inside the range (C04_add_days_partial)'),
-    (r'^DateTime<Tz>::years_since$', ['C08:d8.dtyears'], 'C15_years_since_total', ''),
-    (r'^DateTime<Tz>::to_rfc3339$', ['C10:r3.show'], 'C15_to_rfc3339_total_partial', 'named by the property text; returns String. Theorem for whole-minute offsets, wall year 0..9999 (C10 writer domain)'),
+    (r'^DateTime<Tz>::timestamp_nanos_opt$', ['C02:ts.of'], 'C15_timestamp_nanos_opt_total_partial', ''),
+    (r'^DateTime<Tz>::checked_(add|sub)_signed$', ['C03:ar.zadd', 'C03:ar.zsub'], 'C15_dtz_signed_total_partial', ''),
+    (r'^DateTime<Tz>::checked_(add|sub)_months$', ['C04:z.months'], 'C15_dtz_months_partial', 'wall clock inside the range (C04_months_partial)'),
+    (r'^DateTime<Tz>::checked_(add|sub)_days$', ['C04:z.days', 'C03:ar.zdays'], 'C15_dtz_days_partial', 'wall clock inside the range (C04_add_days_partial)'),
+    (r'^DateTime<Tz>::years_since$', ['C08:d8.dtyears'], 'owner: C08_dt_years_since', ''),
+    (r'^DateTime<Tz>::to_rfc3339$', ['C10:r3.show'], 'none: owner lemma Proofs/C10Writer.v to_rfc3339_ok (writer domain); correspondence + judge', 'named by the property text; returns String. Theorem for whole-minute offsets, wall year 0..9999 (C10 writer domain)'),
     (r'^DateTime<Tz>::to_rfc3339_opts$', ['C10:r3.write', 'C10:r3.rt'], 'C15_to_rfc3339_opts_total_partial',
      'named by the property text; returns String. REPAIRED (fixes/C15-rfc3339-opts-local.diff). Theorem for whole-minute offsets, wall year 0..9999'),
     (r'^DateTime<Tz>::with_time$', ['C04:z.withtime'], 'C15_with_time_total', ''),
     (r'^DateTime<Utc>::from_timestamp$', ['C02:ts.from', 'C02:ts.rt'], 'C15_from_timestamp_total', ''),
     (r'^DateTime<Utc>::from_timestamp_millis$', ['C02:ts.fromms'], 'C15_from_timestamp_millis_total', ''),
     (r'^DateTime<Utc>::from_timestamp_micros$', ['C02:ts.fromus'], 'C15_from_timestamp_micros_total', ''),
-    (r'^DateTime<FixedOffset>::parse_from_rfc2822$', ['C11:r2.parse'], 'C15_rfc2822_reader_partial', 'C11: comment / zone scanners total; whole reader by correspondence + judge'),
+    (r'^DateTime<FixedOffset>::parse_from_rfc2822$', ['C11:r2.parse'], 'none: C11_comment_total, C11_zone_scanner_total, C11_no_panic_on_grammar_partial are partial', 'C11: comment / zone scanners total; whole reader by correspondence + judge'),
     (r'^DateTime<FixedOffset>::parse_from_rfc3339$', ['C10:r3.parse'], 'C15_parse_from_rfc3339_total', ''),
-    (r'^DateTime<FixedOffset>::parse_from_str$', ['C13:fp.parse', 'C13:fp.rt'], 'C15_parse_from_str_total', ''),
-    (r'^DateTime<FixedOffset>::parse_and_remainder$', ['C15:c15.rem', 'C13:fp.rem'], 'C15_parse_and_remainder_total', ''),
+    (r'^DateTime<FixedOffset>::parse_from_str$', ['C13:fp.parse', 'C13:fp.rt'], 'none: partial -- C15_strftime_never_panics (item iterator) and C15_parse_items_total_partial (item reader); their lazy composition and the resolution step: correspondence + judge', ''),
+    (r'^DateTime<FixedOffset>::parse_and_remainder$', ['C15:c15.rem', 'C13:fp.rem'], 'none: partial -- C15_strftime_never_panics (item iterator) and C15_parse_items_total_partial (item reader); their lazy composition and the resolution step: correspondence + judge', ''),
     (r'^<DateTime<Tz> as Datelike>::with_', ['C04:z.with'], 'C15_dtz_with_date_field_partial', 'wall clock inside the range (C04_replace_date_field_partial)'),
     (r'^<DateTime<Tz> as Timelike>::with_', ['C04:z.with'], 'C15_dtz_with_time_field_total', ''),
     (r'^<DateTime<Tz> as fmt::(Debug|Display)>::fmt$', ['C09:tx.show'], 'none: correspondence + judge', 'C09 proves the text for the documented domain'),
-    (r'^<DateTime<(Utc|FixedOffset)> as str::FromStr>::from_str$', ['C09:tx.parse'], 'C15_datetime_from_str_total', ''),
-    (r'^<DateTime<Tz> as DurationRound>::', ['C17:rd.ztrunc', 'C17:rd.zround', 'C17:rd.zup'], 'C15_dtz_round_total_partial', 'C17: non-leap inputs'),
+    (r'^<DateTime<(Utc|FixedOffset)> as str::FromStr>::from_str$', ['C09:tx.parse'], 'none: partial -- C13_rfc3339_relaxed_never_panics (owner), resolution step by correspondence + judge', ''),
+    (r'^<DateTime<Tz> as DurationRound>::', ['C17:rd.ztrunc', 'C17:rd.zround', 'C17:rd.zup'], 'none: C17 theorems are conditional on links to C03 (modulo_add_exact); correspondence + judge', 'C17: non-leap inputs'),
     # ---- format
-    (r'^DelayedFormat<I>::write_to$', ['C15:c15.writeto'], 'C15_format_never_traps', ''),
-    (r'^<DelayedFormat<I> as Display>::fmt$', ['C12:sf.fmt', 'C12:sf.fmtl', 'C13:fp.fmt'], 'C15_format_never_traps', ''),
+    (r'^DelayedFormat<I>::write_to$', ['C15:c15.writeto'], 'none: C12_format_spec covers the documented family; C15_strftime_never_panics covers the item iterator; formatting of arbitrary items: correspondence + judge', ''),
+    (r'^<DelayedFormat<I> as Display>::fmt$', ['C12:sf.fmt', 'C12:sf.fmtl', 'C13:fp.fmt'], 'none: C12_format_spec covers the documented family; C15_strftime_never_panics covers the item iterator; formatting of arbitrary items: correspondence + judge', ''),
     (r'^<ParseError as fmt::Display>::fmt$|^<OutOfRange as|^<ParseMonthError as|^<ParseWeekdayError as|^<RoundingError as|^<OutOfRangeError as',
      [], 'none: outside C15 stream', 'writes a constant string; no arguments to quantify over'),
-    (r'^<Weekday as FromStr>::from_str$', ['C19:wd.parse', 'C09:tx.parse'], 'C15_weekday_from_str_total', ''),
-    (r'^<Month as FromStr>::from_str$', ['C19:mo.parse', 'C09:tx.parse'], 'C15_month_from_str_total', ''),
-    (r'^parse::parse$', ['C13:fp.iparse', 'C13:fp.irt'], 'C15_parse_items_total', ''),
-    (r'^parse::parse_and_remainder$', ['C15:c15.prem'], 'C15_parse_items_total', ''),
+    (r'^<Weekday as FromStr>::from_str$', ['C19:wd.parse', 'C09:tx.parse'], 'C15_weekday_month_from_str_total', ''),
+    (r'^<Month as FromStr>::from_str$', ['C19:mo.parse', 'C09:tx.parse'], 'C15_weekday_month_from_str_total', ''),
+    (r'^parse::parse$', ['C13:fp.iparse', 'C13:fp.irt'], 'C15_parse_items_total_partial', ''),
+    (r'^parse::parse_and_remainder$', ['C15:c15.prem'], 'C15_parse_items_total_partial', ''),
     (r'^Parsed::set_', ['C14:pz.setseq', 'C14:pz.resolve'], 'C15_parsed_setters_total', ''),
-    (r'^Parsed::to_', ['C14:pz.resolve', 'C14:pz.raw'], 'C15_parsed_resolution_total', ''),
+    (r'^Parsed::to_naive_date$', ['C14:pz.resolve', 'C14:pz.raw'], 'C15_to_naive_date_total', ''),
+    (r'^Parsed::to_naive_time$', ['C14:pz.resolve', 'C14:pz.raw'], 'C15_to_naive_time_total', ''),
+    (r'^Parsed::to_naive_datetime_with_offset$', ['C14:pz.resolve', 'C14:pz.raw'], 'C15_to_naive_datetime_with_offset_total', ''),
+    (r'^Parsed::to_', ['C14:pz.resolve', 'C14:pz.raw'], 'none: partial -- goes through C15_to_naive_datetime_with_offset_total; the final zone step: correspondence + judge', ''),
     (r'^Parsed::[a-z_0-9]+$', ['C14:pz.setseq'], 'none: field getters', 'return the stored Option field'),
     (r"^StrftimeItems<'a>::parse$", ['C15:c15.sfparse'], 'C15_strftime_parse_total', ''),
     (r"^StrftimeItems<'a>::parse_to_owned$", ['C15:c15.sfowned'], 'C15_strftime_parse_total', ''),
     # ---- Month / Weekday / WeekdaySet
     (r'^Month::num_days$', ['C08:d8.mdays'], 'C15_month_num_days_total', ''),
-    (r'^<Month as TryFrom<u8>>::try_from$', ['C19:mo.try'], 'C15_month_conversions_total', ''),
-    (r'^<Month as num_traits::FromPrimitive>::', ['C19:mo.fi64', 'C19:mo.fu64', 'C19:mo.fu32'], 'C15_month_conversions_total', ''),
-    (r'^<Weekday as TryFrom<u8>>::try_from$', ['C19:wd.try'], 'C15_weekday_conversions_total', ''),
-    (r'^<Weekday as num_traits::FromPrimitive>::', ['C19:wd.fi64', 'C19:wd.fu64'], 'C15_weekday_conversions_total', ''),
+    (r'^<Month as TryFrom<u8>>::try_from$', ['C19:mo.try'], 'C15_weekday_month_conversions', ''),
+    (r'^<Month as num_traits::FromPrimitive>::', ['C19:mo.fi64', 'C19:mo.fu64', 'C19:mo.fu32'], 'C15_weekday_month_conversions', ''),
+    (r'^<Weekday as TryFrom<u8>>::try_from$', ['C19:wd.try'], 'C15_weekday_month_conversions', ''),
+    (r'^<Weekday as num_traits::FromPrimitive>::', ['C19:wd.fi64', 'C19:wd.fu64'], 'C15_weekday_month_conversions', ''),
     (r'^<Weekday as fmt::Display>::fmt$', ['C19:wd.disp', 'C09:tx.show'], 'none: correspondence + judge', ''),
-    (r'^WeekdaySet::', ['C19:ws.single_day', 'C19:ws.first', 'C19:ws.last'], 'C15_weekday_set_total', ''),
+    (r'^WeekdaySet::', ['C19:ws.single_day', 'C19:ws.first', 'C19:ws.last'], 'owner: C19_members', ''),
     (r'^<WeekdaySet as', ['C19:ws.disp'], 'none: correspondence + judge', ''),
     # ---- NaiveDate
     (r'^NaiveDate::from_ymd_opt$', ['C01:d.ymd'], 'C15_from_ymd_opt_total', ''),
@@ -72,8 +77,8 @@ RULES = [
     (r'^NaiveDate::from_isoywd_opt$', ['C01:d.isoywd'], 'C15_from_isoywd_opt_total', 'repaired f8bab14'),
     (r'^NaiveDate::from_num_days_from_ce_opt$', ['C01:d.days'], 'C15_from_num_days_from_ce_opt_total', ''),
     (r'^NaiveDate::from_weekday_of_month_opt$', ['C08:d8.nthwd'], 'C15_from_weekday_of_month_opt_total', ''),
-    (r'^NaiveDate::parse_from_str$', ['C13:fp.parse', 'C13:fp.rt'], 'C15_parse_from_str_total', ''),
-    (r'^NaiveDate::parse_and_remainder$', ['C15:c15.rem', 'C13:fp.rem'], 'C15_parse_and_remainder_total', ''),
+    (r'^NaiveDate::parse_from_str$', ['C13:fp.parse', 'C13:fp.rt'], 'none: partial -- C15_strftime_never_panics (item iterator) and C15_parse_items_total_partial (item reader); their lazy composition and the resolution step: correspondence + judge', ''),
+    (r'^NaiveDate::parse_and_remainder$', ['C15:c15.rem', 'C13:fp.rem'], 'none: partial -- C15_strftime_never_panics (item iterator) and C15_parse_items_total_partial (item reader); their lazy composition and the resolution step: correspondence + judge', ''),
     (r'^NaiveDate::checked_(add|sub)_months$', ['C08:d8.addm', 'C08:d8.subm'], 'C15_date_months_total', ''),
     (r'^NaiveDate::checked_(add|sub)_days$', ['C03:ar.dadd', 'C03:ar.dsub'], 'C15_date_days_total', ''),
     (r'^NaiveDate::and_hms(_milli|_micro|_nano)?_opt$', ['C15:c15.d.hms', 'C15:c15.d.hmsm', 'C15:c15.d.hmsu', 'C15:c15.d.hmsn'], 'C15_and_hms_total', ''),
@@ -83,47 +88,51 @@ RULES = [
     (r'^NaiveDate::years_since$', ['C08:d8.years'], 'C15_years_since_total', ''),
     (r'^<NaiveDate as Datelike>::with_', ['C08:d8.with'], 'C15_date_with_total', ''),
     (r'^<NaiveDate as fmt::', ['C09:tx.show'], 'none: correspondence + judge', ''),
-    (r'^<NaiveDate as str::FromStr>::from_str$', ['C09:tx.parse'], 'C15_naive_from_str_total', ''),
+    (r'^<NaiveDate as str::FromStr>::from_str$', ['C09:tx.parse'], 'none: partial -- C15_parse_items_total_partial (fixed item lists), resolution by C15_to_naive_date_total / C15_to_naive_time_total; composition: correspondence + judge', ''),
     (r'^<IsoWeek as fmt::Debug>::fmt$', [], 'none: outside C15 stream', 'Debug of IsoWeek: two integers through write!; no op'),
     # ---- NaiveDateTime
-    (r'^NaiveDateTime::parse_from_str$', ['C13:fp.parse', 'C13:fp.rt'], 'C15_parse_from_str_total', ''),
-    (r'^NaiveDateTime::parse_and_remainder$', ['C15:c15.rem', 'C13:fp.rem'], 'C15_parse_and_remainder_total', ''),
-    (r'^NaiveDateTime::checked_(add|sub)_signed$', ['C03:ar.nadd', 'C03:ar.nsub', 'C07:ndt.add', 'C07:ndt.sub'], 'C15_ndt_signed_total', ''),
+    (r'^NaiveDateTime::parse_from_str$', ['C13:fp.parse', 'C13:fp.rt'], 'none: partial -- C15_strftime_never_panics (item iterator) and C15_parse_items_total_partial (item reader); their lazy composition and the resolution step: correspondence + judge', ''),
+    (r'^NaiveDateTime::parse_and_remainder$', ['C15:c15.rem', 'C13:fp.rem'], 'none: partial -- C15_strftime_never_panics (item iterator) and C15_parse_items_total_partial (item reader); their lazy composition and the resolution step: correspondence + judge', ''),
+    (r'^NaiveDateTime::checked_(add|sub)_signed$', ['C03:ar.nadd', 'C03:ar.nsub', 'C07:ndt.add', 'C07:ndt.sub'], 'C15_ndt_signed_total_partial', ''),
     (r'^NaiveDateTime::checked_(add|sub)_months$', ['C08:d8.ndt.addm', 'C08:d8.ndt.subm'], 'C15_ndt_months_total', ''),
     (r'^NaiveDateTime::checked_(add|sub)_offset$', ['C15:c15.ndt.addoff', 'C15:c15.ndt.suboff', 'C07:t.addoffd'], 'C15_ndt_offset_total', ''),
-    (r'^NaiveDateTime::checked_(add|sub)_days$', ['C03:ar.ndays'], 'C15_ndt_days_total', ''),
+    (r'^NaiveDateTime::checked_(add|sub)_days$', ['C03:ar.ndays'], 'C15_ndt_days_total_partial', ''),
     (r'^NaiveDateTime::and_local_timezone$', ['C15:c15.ndt.andtz', 'C04:z.fromlocal'], 'C15_from_local_datetime_total', ''),
-    (r'^<NaiveDateTime as Datelike>::with_', ['C08:d8.ndt.with'], 'C15_ndt_with_date_total', ''),
+    (r'^<NaiveDateTime as Datelike>::with_', ['C08:d8.ndt.with'], 'owner: C08_ndt_with', ''),
     (r'^<NaiveDateTime as Timelike>::with_', ['C15:c15.ndt.witht'], 'C15_ndt_with_time_total', ''),
     (r'^<NaiveDateTime as fmt::', ['C09:tx.show'], 'none: correspondence + judge', ''),
-    (r'^<NaiveDateTime as str::FromStr>::from_str$', ['C09:tx.parse'], 'C15_naive_from_str_total', ''),
-    (r'^<NaiveDateTime as DurationRound>::', ['C17:rd.trunc', 'C17:rd.round', 'C17:rd.up'], 'C15_ndt_round_total_partial', 'C17: non-leap inputs'),
+    (r'^<NaiveDateTime as str::FromStr>::from_str$', ['C09:tx.parse'], 'none: partial -- C15_parse_items_total_partial (fixed item lists), resolution by C15_to_naive_date_total / C15_to_naive_time_total; composition: correspondence + judge', ''),
+    (r'^<NaiveDateTime as DurationRound>::', ['C17:rd.trunc', 'C17:rd.round', 'C17:rd.up'], 'none: C17 theorems are conditional on links to C03 (modulo_add_exact); correspondence + judge', 'C17: non-leap inputs'),
     (r'^NaiveWeek::checked_', ['C08:d8.wfirst', 'C08:d8.wlast', 'C08:d8.week'], 'C15_week_total', ''),
     # ---- NaiveTime
     (r'^NaiveTime::from_hms', ['C07:t.hms', 'C07:t.hms_milli', 'C07:t.hms_micro', 'C07:t.hms_nano'], 'C15_time_ctor_total', ''),
-    (r'^NaiveTime::from_num_seconds_from_midnight_opt$', ['C07:t.nsfm'], 'C15_time_ctor_total', 'no trapping operation in the model (returns option directly)'),
-    (r'^NaiveTime::parse_from_str$', ['C13:fp.parse', 'C13:fp.rt'], 'C15_parse_from_str_total', ''),
-    (r'^NaiveTime::parse_and_remainder$', ['C15:c15.rem', 'C13:fp.rem'], 'C15_parse_and_remainder_total', ''),
-    (r'^<NaiveTime as Timelike>::with_', ['C07:t.with_hour', 'C07:t.with_minute', 'C07:t.with_second', 'C07:t.with_nano'], 'C15_time_with_total', ''),
+    (r'^NaiveTime::from_num_seconds_from_midnight_opt$', ['C07:t.nsfm'], 'owner: C07_ctor_accept_iff_secs', 'no trapping operation in the model (returns option directly)'),
+    (r'^NaiveTime::parse_from_str$', ['C13:fp.parse', 'C13:fp.rt'], 'none: partial -- C15_strftime_never_panics (item iterator) and C15_parse_items_total_partial (item reader); their lazy composition and the resolution step: correspondence + judge', ''),
+    (r'^NaiveTime::parse_and_remainder$', ['C15:c15.rem', 'C13:fp.rem'], 'none: partial -- C15_strftime_never_panics (item iterator) and C15_parse_items_total_partial (item reader); their lazy composition and the resolution step: correspondence + judge', ''),
+    (r'^<NaiveTime as Timelike>::with_', ['C07:t.with_hour', 'C07:t.with_minute', 'C07:t.with_second', 'C07:t.with_nano'], 'owner: C07_replace_exact_hour', ''),
     (r'^<NaiveTime as fmt::', ['C09:tx.show'], 'none: correspondence + judge', ''),
-    (r'^<NaiveTime as str::FromStr>::from_str$', ['C09:tx.parse'], 'C15_naive_from_str_total', ''),
+    (r'^<NaiveTime as str::FromStr>::from_str$', ['C09:tx.parse'], 'none: partial -- C15_parse_items_total_partial (fixed item lists), resolution by C15_to_naive_date_total / C15_to_naive_time_total; composition: correspondence + judge', ''),
     # ---- offsets / zones
     (r'^FixedOffset::(east|west)_opt$', ['C04:z.east', 'C04:z.west'], 'C15_fixed_offset_ctor_total', ''),
-    (r'^<FixedOffset as FromStr>::from_str$', ['C09:tx.parse'], 'C15_fixed_offset_from_str_total', ''),
-    (r'^<(FixedOffset|Utc) as TimeZone>::offset_from_local', ['C15:c15.offlocal'], 'C15_offset_from_local_total', 'returns Single(self)'),
+    (r'^<FixedOffset as FromStr>::from_str$', ['C09:tx.parse'], 'none: partial -- C13_timezone_offset_never_panics (owner); correspondence + judge', ''),
+    (r'^<(FixedOffset|Utc) as TimeZone>::offset_from_local', ['C15:c15.offlocal'], 'none: constant (returns Single(self)); no trapping step in the model', 'returns Single(self)'),
     (r'^<(FixedOffset|Utc) as fmt::', ['C09:tx.show'], 'none: correspondence + judge', ''),
-    (r'^MappedLocalTime<T>::', ['C15:c15.mlt'], 'C15_mlt_selectors_total', 'pattern match only'),
+    (r'^MappedLocalTime<T>::', ['C15:c15.mlt'], 'none: pattern match only; no trapping step in the model', 'pattern match only'),
     (r'^TimeZone::with_ymd_and_hms$', ['C04:z.ymdhms'], 'C15_with_ymd_and_hms_total', ''),
     (r'^TimeZone::timestamp_opt$', ['C02:ts.tz'], 'C15_tz_timestamp_total', ''),
     (r'^TimeZone::timestamp_millis_opt$', ['C02:ts.tzms'], 'C15_tz_timestamp_total', ''),
     (r'^TimeZone::timestamp_micros$', ['C02:ts.tzus'], 'C15_tz_timestamp_total', ''),
     (r'^TimeZone::from_local_datetime$', ['C04:z.fromlocal', 'C15:c15.ndt.andtz'], 'C15_from_local_datetime_total', ''),
     # ---- TimeDelta
-    (r'^TimeDelta::(new|try_)', ['C06:td.new', 'C06:td.weeks', 'C06:td.days', 'C06:td.hours', 'C06:td.minutes', 'C06:td.seconds', 'C06:td.millis'], 'C15_td_ctor_total', ''),
-    (r'^TimeDelta::num_(micro|nano)seconds$', ['C06:td.acc'], 'C15_td_accessors_total', ''),
-    (r'^TimeDelta::checked_', ['C06:td.add', 'C06:td.sub', 'C06:td.mul', 'C06:td.div'], 'C15_td_checked_total', 'checked_mul repaired 9a6fec9'),
-    (r'^TimeDelta::from_std$', ['C06:td.fromstd'], 'C15_td_std_total', ''),
-    (r'^TimeDelta::to_std$', ['C06:td.tostd'], 'C15_td_std_total', ''),
+    (r'^TimeDelta::try_milliseconds$', ['C06:td.millis'], 'C15_td_millis_total', ''),
+    (r'^TimeDelta::(new|try_)', ['C06:td.new', 'C06:td.weeks', 'C06:td.days', 'C06:td.hours', 'C06:td.minutes', 'C06:td.seconds', 'C06:td.millis'], 'C15_td_ctor_valid', ''),
+    (r'^TimeDelta::num_(micro|nano)seconds$', ['C06:td.acc'], 'owner: C06_num_microseconds', ''),
+    (r'^TimeDelta::checked_add$', ['C06:td.add'], 'C15_td_add_total', ''),
+    (r'^TimeDelta::checked_sub$', ['C06:td.sub'], 'C15_td_sub_total', ''),
+    (r'^TimeDelta::checked_mul$', ['C06:td.mul'], 'C15_td_mul_total', 'repaired 9a6fec9'),
+    (r'^TimeDelta::checked_div$', ['C06:td.div'], 'C15_td_div_total', ''),
+    (r'^TimeDelta::from_std$', ['C06:td.fromstd'], 'owner: C06_from_std', ''),
+    (r'^TimeDelta::to_std$', ['C06:td.tostd'], 'owner: C06_from_std', ''),
     (r'^<TimeDelta as fmt::Display>::fmt$', ['C06:td.disp'], 'C15_td_display_total', ''),
 ]
 
